@@ -26,25 +26,39 @@
 (* sequences.  The aggregator and the instances run on the SAME run        *)
 (* context: `runDone`.                                                     *)
 (*                                                                         *)
-(* Simplifications (stated): one pool; all N instances are started before  *)
-(* the first result is awaited (instance start and its failures are        *)
-(* PoolRun.tla's subject); context propagation has no lag.                 *)
+(* Instance start is staged (start-up schedule once(N0), pause, the rest):  *)
+(* an instance that finds the provider out of ammo while the start-up has  *)
+(* not finished makes the await loop call instanceStartCancel(); the       *)
+(* shared RPS schedule running dry calls cancelStart() from its finish     *)
+(* callback.  Both stop the START context only - a child of the run        *)
+(* context - and must not touch the run context on which the aggregator    *)
+(* and the other instances (possibly in the middle of a shot) run.         *)
+(* Simplifications (stated): one pool; instance creation cannot fail (that *)
+(* is PoolRun.tla's subject); context propagation has no lag.              *)
 (*                                                                         *)
 (* Bug = "early": checkAllInstancesAreFinished cancels the run context at  *)
 (* the FIRST awaited instance result, i.e. the aggregator is cancelled     *)
 (* together with the (other) instances - negative control.                 *)
+(* Bug = "ooaRunCancel": the out-of-ammo-during-start-up branch calls      *)
+(* runCancel() instead of instanceStartCancel() (seeded regression C06-8). *)
 (***************************************************************************)
 EXTENDS Phout
 
-CONSTANTS N,             \* instances 1..N
-          M,             \* shots (= reports) an instance makes if nothing stops it
+CONSTANTS N,             \* instances the start-up schedule would start: 1..N
+          N0,            \* of those, started at once (first stage: `once(N0)`); the others follow after a pause
+          A,             \* ammo the provider has
+          T,             \* tokens of the shared RPS schedule (T < A: the schedule runs dry first)
           Q, Mode,       \* queue capacity; "block" | "drop"
           MayProvFail,   \* the provider may fail at any moment
           MayUserCancel, \* the caller may cancel the context given to Engine.Run at any moment
-          Bug            \* "none" | "early"
+          Bug            \* "none" | "early" | "ooaRunCancel"
 
-VARIABLES ipc, made,         \* instances: "check" | "shoot" | "res" | "done"; reports made
+VARIABLES ipc, made,         \* instances: "none" (not started) | "check" | "shoot" | "res" | "done"; reports made
+          ires,              \* run result of an instance: "" | "nil" | "ctx" | "ooa"
           resCh,             \* run results sent and not yet awaited (set of instance ids)
+          started, stpc,     \* startInstances: instances started so far; "run" | "ret" (result sent) | "seen"
+          startCancelled,    \* instanceStartCancel() / cancelStart() of the shared schedule's finish callback
+          ammo, tokens,
           awaited, provSeen, aggSeen, awpc,  \* await goroutine: "loop" | "done"
           runCancelled,      \* runCancel() was called
           poolPc, poolRet,   \* pool.Run: "select" | "ret";  "none" | "nil" | "ctx" | "err"
@@ -56,16 +70,21 @@ VARIABLES ipc, made,         \* instances: "check" | "shoot" | "res" | "done"; r
           late,              \* ghost: samples whose Report call happened while the run context was done
           uncounted          \* ghost: drops that happened after Run had returned its drop error
 
-vars == <<ipc, made, resCh, awaited, provSeen, aggSeen, awpc, runCancelled, poolPc, poolRet, userCancel,
+vars == <<ipc, made, ires, resCh, started, stpc, startCancelled, ammo, tokens,
+          awaited, provSeen, aggSeen, awpc, runCancelled, poolPc, poolRet, userCancel,
           prov, provCh, waited, queue, buf, disk, dropped, lost, apc, closed, result, cause, late, uncounted>>
 
 I == 1..N
 \* the run context: child of the pool context (done when pool.Run returned), child of the engine context
 RunDone == runCancelled \/ poolPc = "ret" \/ userCancel
-Reported == {s \in I \X (1..M) : s[2] <= made[s[1]]}
+\* the instance start context: child of the run context
+StartDone == startCancelled \/ RunDone
+Reported == {s \in I \X (1..A) : s[2] <= made[s[1]]}
 Rng(s) == {s[i] : i \in DOMAIN s}
 
-Init == /\ ipc = [i \in I |-> "check"] /\ made = [i \in I |-> 0] /\ resCh = {}
+Init == /\ ipc = [i \in I |-> IF i <= N0 THEN "check" ELSE "none"] /\ made = [i \in I |-> 0]
+        /\ ires = [i \in I |-> ""] /\ resCh = {}
+        /\ started = N0 /\ stpc = "run" /\ startCancelled = FALSE /\ ammo = A /\ tokens = T
         /\ awaited = 0 /\ provSeen = FALSE /\ aggSeen = FALSE /\ awpc = "loop"
         /\ runCancelled = FALSE /\ poolPc = "select" /\ poolRet = "none" /\ userCancel = FALSE
         /\ prov = "run" /\ provCh = "empty" /\ waited = FALSE
@@ -73,7 +92,8 @@ Init == /\ ipc = [i \in I |-> "check"] /\ made = [i \in I |-> 0] /\ resCh = {}
         /\ closed = FALSE /\ result = -1
         /\ cause = "none" /\ late = {} /\ uncounted = 0
 
-instV == <<ipc, made, resCh>>
+instV == <<ipc, made, ires, resCh, ammo, tokens>>
+startV == <<started, stpc>>
 awV   == <<awaited, provSeen, aggSeen, awpc, runCancelled>>
 poolV == <<poolPc, poolRet>>
 provV == <<prov, provCh>>
@@ -83,11 +103,23 @@ aggV  == <<queue, buf, disk, dropped, lost, apc, closed, result>>
 Cause(c) == cause' = IF RunDone THEN cause ELSE c
 
 (* ------------------------------------------------------------------ instances *)
-\* instance.Run: `for !waiter.IsFinished(ctx)`: context done, or schedule / ammo finished -> return
-Check(i) == /\ ipc[i] = "check"
-            /\ ipc' = [ipc EXCEPT ![i] = IF RunDone \/ made[i] = M \/ prov = "failed" THEN "res"
-                                         ELSE "shoot"]
-            /\ UNCHANGED <<made, resCh, awV, poolV, userCancel, provV, waited, aggV, cause, late, uncounted>>
+\* instance.Run: `for !waiter.IsFinished(ctx)` (context done / shared schedule dry: its finish callback cancels the
+\* instance START), then Acquire (out of ammo), then the shot
+Check(i) ==
+    /\ ipc[i] = "check"
+    /\ \/ /\ RunDone
+          /\ ipc' = [ipc EXCEPT ![i] = "res"] /\ ires' = [ires EXCEPT ![i] = "ctx"]
+          /\ UNCHANGED <<ammo, tokens, startCancelled>>
+       \/ /\ ~RunDone /\ tokens = 0
+          /\ ipc' = [ipc EXCEPT ![i] = "res"] /\ ires' = [ires EXCEPT ![i] = "nil"]
+          /\ startCancelled' = TRUE /\ UNCHANGED <<ammo, tokens>>
+       \/ /\ ~RunDone /\ tokens > 0 /\ (ammo = 0 \/ prov = "failed")
+          /\ ipc' = [ipc EXCEPT ![i] = "res"] /\ ires' = [ires EXCEPT ![i] = "ooa"]
+          /\ UNCHANGED <<ammo, tokens, startCancelled>>
+       \/ /\ ~RunDone /\ tokens > 0 /\ ammo > 0 /\ prov # "failed"
+          /\ ipc' = [ipc EXCEPT ![i] = "shoot"] /\ ammo' = ammo - 1 /\ tokens' = tokens - 1
+          /\ UNCHANGED <<ires, startCancelled>>
+    /\ UNCHANGED <<made, resCh, startV, awV, poolV, userCancel, provV, waited, aggV, cause, late, uncounted>>
 \* gun.Shoot reports its sample; the context is NOT consulted between Check and the report
 Shoot(i) ==
     /\ ipc[i] = "shoot"
@@ -101,52 +133,89 @@ Shoot(i) ==
        /\ late' = IF RunDone THEN late \cup {s} ELSE late
     /\ made' = [made EXCEPT ![i] = @ + 1]
     /\ ipc' = [ipc EXCEPT ![i] = "check"]
-    /\ UNCHANGED <<resCh, awV, poolV, userCancel, provV, waited, buf, disk, apc, closed, result, cause>>
+    /\ UNCHANGED <<ires, resCh, ammo, tokens, startV, startCancelled, awV, poolV, userCancel, provV, waited,
+                   buf, disk, apc, closed, result, cause>>
 \* the instance goroutine sends its run result
 SendRes(i) == /\ ipc[i] = "res"
               /\ ipc' = [ipc EXCEPT ![i] = "done"] /\ resCh' = resCh \cup {i}
-              /\ UNCHANGED <<made, awV, poolV, userCancel, provV, waited, aggV, cause, late, uncounted>>
+              /\ UNCHANGED <<made, ires, ammo, tokens, startV, startCancelled, awV, poolV, userCancel, provV, waited,
+                             aggV, cause, late, uncounted>>
+
+(* ------------------------------------------------------------------ startInstances (staged start-up) *)
+\* `for ; waiter.Wait(startCtx); started++`: the next stage of the start-up schedule starts one more instance
+StartNext == /\ stpc = "run" /\ started < N /\ ~StartDone
+             /\ started' = started + 1
+             /\ ipc' = [ipc EXCEPT ![started + 1] = "check"]
+             /\ UNCHANGED <<made, ires, resCh, ammo, tokens, stpc, startCancelled, awV, poolV, userCancel, provV, waited,
+                            aggV, cause, late, uncounted>>
+\* start-up schedule finished, or the start context is done: startRes <- {started, err}
+StartEnd == /\ stpc = "run" /\ (started = N \/ StartDone)
+            /\ stpc' = "ret"
+            /\ UNCHANGED <<instV, started, startCancelled, awV, poolV, userCancel, provV, waited, aggV, cause, late, uncounted>>
 
 (* ------------------------------------------------------------------ provider, user *)
 ProvFail == /\ MayProvFail /\ prov = "run" /\ ~RunDone
             /\ prov' = "failed" /\ provCh' = "err"
-            /\ UNCHANGED <<instV, awV, poolV, userCancel, waited, aggV, cause, late, uncounted>>
+            /\ UNCHANGED <<instV, startV, startCancelled, awV, poolV, userCancel, waited, aggV, cause, late, uncounted>>
 ProvEnd  == /\ prov = "run" /\ RunDone
             /\ prov' = "ended" /\ provCh' = "nil"
-            /\ UNCHANGED <<instV, awV, poolV, userCancel, waited, aggV, cause, late, uncounted>>
+            /\ UNCHANGED <<instV, startV, startCancelled, awV, poolV, userCancel, waited, aggV, cause, late, uncounted>>
 UserCancel == /\ MayUserCancel /\ ~userCancel /\ ~waited
               /\ userCancel' = TRUE /\ Cause("ext")
-              /\ UNCHANGED <<instV, awV, poolV, provV, waited, aggV, late, uncounted>>
+              /\ UNCHANGED <<instV, startV, startCancelled, awV, poolV, provV, waited, aggV, late, uncounted>>
 
 (* ------------------------------------------------------------------ await goroutine *)
 \* onErrAwaited: rendezvous with pool.Run's select, or give up once the pool context is done
 OnErr == \/ poolPc = "select" /\ poolPc' = "ret" /\ poolRet' = "err" /\ Cause("ext")      \* forwarded
          \/ (poolPc = "ret" \/ userCancel) /\ UNCHANGED <<poolV, cause>>                  \* suppressed
 
+StartSeen == stpc = "seen"
+\* checkAllInstancesAreFinished after the step that makes (startSeen', awaited'): hook AllInstancesFinished, runCancel()
+AllFin(seen, aw) == seen /\ aw >= started
+
 AwaitInstance ==
     /\ awpc = "loop" /\ resCh # {}
-    /\ \E i \in resCh : resCh' = resCh \ {i}
-    /\ awaited' = awaited + 1
-    \* checkAllInstancesAreFinished (hook AllInstancesFinished, then runCancel())
-    /\ IF awaited + 1 = N \/ (Bug = "early" /\ awaited = 0)
+    /\ \E i \in resCh :
+         /\ resCh' = resCh \ {i}
+         /\ awaited' = awaited + 1
+         \* out of ammo while the start-up schedule has not finished: cancel the instance START (only)
+         /\ LET ooaStart == ires[i] = "ooa" /\ ~StartSeen IN
+            /\ startCancelled' = IF ooaStart /\ Bug # "ooaRunCancel" THEN TRUE ELSE startCancelled
+            /\ IF \/ AllFin(StartSeen, awaited + 1)
+                  \/ (Bug = "early" /\ awaited = 0)
+                  \/ (Bug = "ooaRunCancel" /\ ooaStart)      \* the seeded regression: runCancel() instead
+               THEN runCancelled' = TRUE /\ Cause("self")
+               ELSE UNCHANGED <<runCancelled, cause>>
+    /\ UNCHANGED <<ipc, made, ires, ammo, tokens, startV, provSeen, aggSeen, awpc, poolV, userCancel, provV, waited,
+                   aggV, late, uncounted>>
+AwaitStart ==
+    /\ awpc = "loop" /\ stpc = "ret"
+    /\ stpc' = "seen"
+    /\ IF AllFin(TRUE, awaited) /\ ~runCancelled
        THEN runCancelled' = TRUE /\ Cause("self")
        ELSE UNCHANGED <<runCancelled, cause>>
-    /\ UNCHANGED <<ipc, made, provSeen, aggSeen, awpc, poolV, userCancel, provV, waited, aggV, late, uncounted>>
+    /\ UNCHANGED <<instV, started, startCancelled, awaited, provSeen, aggSeen, awpc, poolV, userCancel, provV, waited,
+                   aggV, late, uncounted>>
 AwaitProvider ==
     /\ awpc = "loop" /\ ~provSeen /\ provCh \in {"nil", "err"}
     /\ provSeen' = TRUE /\ provCh' = "taken"
     /\ IF provCh = "err" THEN OnErr ELSE UNCHANGED <<poolV, cause>>
-    /\ UNCHANGED <<instV, awaited, aggSeen, awpc, runCancelled, userCancel, prov, waited, aggV, late, uncounted>>
+    /\ UNCHANGED <<instV, startV, startCancelled, awaited, aggSeen, awpc, runCancelled, userCancel, prov, waited,
+                   aggV, late, uncounted>>
 AwaitAggregator ==
     /\ awpc = "loop" /\ ~aggSeen /\ apc = "done"
     /\ aggSeen' = TRUE
     /\ IF result > 0 THEN OnErr ELSE UNCHANGED <<poolV, cause>>                          \* "N samples were dropped"
-    /\ UNCHANGED <<instV, awaited, provSeen, awpc, runCancelled, userCancel, provV, waited, aggV, late, uncounted>>
-\* toWait = 0: close(awaitErr), onWaitDone
+    /\ UNCHANGED <<instV, startV, startCancelled, awaited, provSeen, awpc, runCancelled, userCancel, provV, waited,
+                   aggV, late, uncounted>>
+\* toWait = 0: close(awaitErr), onWaitDone.  (With the regression the run results channel is never closed by
+\* checkAllInstancesAreFinished's own runCancel; the loop still ends when all four sources are through.)
 AwaitEnd ==
-    /\ awpc = "loop" /\ provSeen /\ aggSeen /\ runCancelled /\ awaited = N
+    /\ awpc = "loop" /\ provSeen /\ aggSeen /\ StartSeen /\ runCancelled /\ awaited >= started /\ resCh = {}
+    /\ \A i \in I : ipc[i] \in {"none", "done"}
     /\ awpc' = "done" /\ waited' = TRUE
-    /\ UNCHANGED <<instV, awaited, provSeen, aggSeen, runCancelled, poolV, userCancel, provV, aggV, cause, late, uncounted>>
+    /\ UNCHANGED <<instV, startV, startCancelled, awaited, provSeen, aggSeen, runCancelled, poolV, userCancel, provV,
+                   aggV, cause, late, uncounted>>
 
 (* ------------------------------------------------------------------ pool.Run *)
 PoolReturn ==
@@ -154,10 +223,10 @@ PoolReturn ==
     /\ \/ userCancel /\ poolRet' = "ctx"
        \/ awpc = "done" /\ poolRet' = "nil"
     /\ poolPc' = "ret" /\ Cause("ext")
-    /\ UNCHANGED <<instV, awV, userCancel, provV, waited, aggV, late, uncounted>>
+    /\ UNCHANGED <<instV, startV, startCancelled, awV, userCancel, provV, waited, aggV, late, uncounted>>
 
 (* ------------------------------------------------------------------ aggregator (Aggregator.tla) *)
-aggFrame == UNCHANGED <<instV, awV, poolV, userCancel, provV, waited, cause, late, uncounted>>
+aggFrame == UNCHANGED <<instV, startV, startCancelled, awV, poolV, userCancel, provV, waited, cause, late, uncounted>>
 Encode == queue # <<>> /\ buf' = Append(buf, Head(queue)) /\ queue' = Tail(queue)
 Dequeue  == apc = "loop" /\ Encode /\ UNCHANGED <<disk, dropped, lost, apc, closed, result>> /\ aggFrame
 Tick     == apc = "loop" /\ buf # <<>> /\ disk' = disk \o buf /\ buf' = <<>>
@@ -180,22 +249,27 @@ AggStep == Dequeue \/ Tick \/ Spill \/ SeeDone \/ DrainOne \/ DrainEnd \/ FinalF
 Next == \/ \E i \in I : Check(i)
         \/ \E i \in I : Shoot(i)
         \/ \E i \in I : SendRes(i)
+        \/ StartNext \/ StartEnd
         \/ ProvFail \/ ProvEnd \/ UserCancel
-        \/ AwaitInstance \/ AwaitProvider \/ AwaitAggregator \/ AwaitEnd
+        \/ AwaitInstance \/ AwaitStart \/ AwaitProvider \/ AwaitAggregator \/ AwaitEnd
         \/ PoolReturn
         \/ Dequeue \/ Tick \/ Spill \/ SeeDone \/ DrainOne \/ DrainEnd \/ FinalFlush \/ Close \/ Return
 
 Fair == /\ WF_vars(AggStep) /\ WF_vars(ProvEnd) /\ WF_vars(PoolReturn)
+        /\ WF_vars(StartNext) /\ WF_vars(StartEnd) /\ WF_vars(AwaitStart)
         /\ WF_vars(AwaitInstance) /\ WF_vars(AwaitProvider) /\ WF_vars(AwaitAggregator) /\ WF_vars(AwaitEnd)
         /\ \A i \in I : WF_vars(Check(i)) /\ WF_vars(Shoot(i)) /\ WF_vars(SendRes(i))
 Spec == Init /\ [][Next]_vars /\ Fair
 
 (* ------------------------------------------------------------------ properties *)
-TypeOK == /\ Len(queue) <= Q /\ awaited \in 0..N /\ result \in -1..(N * M)
+TypeOK == /\ Len(queue) <= Q /\ awaited \in 0..N /\ started \in N0..N /\ result \in -1..A
           /\ cause \in {"none", "self", "ext"} /\ (cause = "none") = ~RunDone
 
 \* the pool itself cancels the aggregator only after every instance result was awaited ...
-AggCancelAfterAllAwaited == runCancelled => awaited = N /\ \A i \in I : ipc[i] = "done"
+AggCancelAfterAllAwaited == runCancelled => /\ StartSeen /\ awaited = started
+                                            /\ \A i \in I : ipc[i] \in {"none", "done"}
+\* out of ammo during the start-up (and the shared schedule running dry) stop the instance START only
+StartCancelIsNotRunCancel == (startCancelled /\ ~runCancelled /\ poolPc = "select" /\ ~userCancel) => ~RunDone
 \* ... hence, when nothing stops the run from outside, every report precedes the cancel
 NoLateReportUnlessStopped == cause = "self" => late = {}
 \* exactly which reports may be lost when the run is stopped from outside (provider failure forwarded,
@@ -211,7 +285,7 @@ Conservation == /\ \A i, j \in DOMAIN (queue \o buf \o disk) : i # j => (queue \
 CompleteAtWait ==
     waited =>
         /\ apc = "done" /\ closed /\ buf = <<>>                                      \* flushed and closed
-        /\ \A i \in I : ipc[i] = "done"                                              \* nobody reports any more
+        /\ \A i \in I : ipc[i] \in {"none", "done"}                                   \* nobody reports any more
         /\ Rng(queue) \subseteq late /\ uncounted <= Cardinality(late \cap lost)     \* what is lost was late
         /\ CompleteCounts(Len(disk), result, Cardinality(Reported) - Len(queue) - uncounted)
         /\ CompleteBetween(Len(disk), result, Cardinality(Reported \ late), Cardinality(Reported))
